@@ -917,7 +917,35 @@ def install(interp):
     interp.models[id] = _shape_only(id)
     import json
 
+    def _json_unsupported(v):
+        """the first member of the value tree that json.dumps refuses without a default hook, or None"""
+        from .strings import StrVec
+        from .values import SymInt, SymBool
+        if v is None or isinstance(v, (str, int, float, bool, StrVec, SymInt, SymBool)):
+            return None
+        if isinstance(v, dict):
+            for k, x in v.items():
+                if not (k is None or isinstance(k, (str, int, float, bool, StrVec, SymInt, SymBool))):
+                    return k
+                r = _json_unsupported(x)
+                if r is not None:
+                    return r
+            return None
+        if isinstance(v, (list, tuple)):
+            for x in v:
+                r = _json_unsupported(x)
+                if r is not None:
+                    return r
+            return None
+        return v
+
     def m_json_dumps(interp_, args, kwargs):
+        bad = _json_unsupported(args[0]) if args else None
+        if bad is not None:
+            if kwargs.get("default") is not None or kwargs.get("cls") is not None:
+                raise Unmodelled("json.dumps of symbolic data with a default hook")
+            tn = getattr(bad, "kind", None) if isinstance(bad, SymBytes) else None
+            raise TypeError("Object of type %s is not JSON serializable" % (tn or type(bad).__name__))
         USED.add("json.dumps(symbolic) -> opaque text")
         return opaque_text("json", 8, [(0x20, 0x7E)])     # json.dumps output is ASCII (ensure_ascii)
     interp.models[json.dumps] = m_json_dumps
